@@ -18,7 +18,7 @@
 use full_moon::{
     ast::{Ast, Block, Call, Expression, Prefix, Stmt, Suffix},
     node::Node,
-    tokenizer::{TokenReference, TokenType},
+    tokenizer::{Token, TokenReference, TokenType},
 };
 
 use crate::{
@@ -190,7 +190,7 @@ pub(crate) fn sort_requires(ctx: &Context, input_ast: Ast) -> Ast {
 
                 // Get the leading trivia of the first statement in the list, as that will be what
                 // is appended to the new statement
-                let leading_trivia = match list.first_mut() {
+                let leading_trivia: Vec<Token> = match list.first_mut() {
                     Some((_, (Stmt::LocalAssignment(local_assignment), _))) => {
                         let trivia = local_assignment
                             .local_token()
@@ -210,9 +210,14 @@ pub(crate) fn sort_requires(ctx: &Context, input_ast: Ast) -> Ast {
                 // Sort our list of requires
                 list.sort_by_key(|key| key.0.clone());
 
-                // Mutate the first element with our leading trivia
+                // Mutate the first element with our leading trivia, in front of the comments it
+                // carries itself (`--[[ comment ]] local NAME = require(...)`)
                 match list.first_mut() {
                     Some((_, (Stmt::LocalAssignment(local_assignment), _))) => {
+                        let leading_trivia: Vec<Token> = leading_trivia
+                            .into_iter()
+                            .chain(local_assignment.local_token().leading_trivia().cloned())
+                            .collect();
                         *local_assignment = local_assignment
                             .update_leading_trivia(FormatTriviaType::Replace(leading_trivia))
                     }
